@@ -76,6 +76,20 @@ def powMod (m : Nat) : Nat → Nat → Nat → Nat
 
 def wpow (bits a e : Nat) : Nat := powMod (2 ^ bits) (e + 1) a e
 
+/-- `wrapping_shl` / `wrapping_shr` by a `usize` amount (value level): everything is shifted out from `BITS` on. -/
+def wshl (bits a k : Nat) : Nat := if k ≥ bits then 0 else (a * 2 ^ k) % 2 ^ bits
+def wshr (bits a k : Nat) : Nat := if k ≥ bits then 0 else a / 2 ^ k
+
+/-- `Shl<Uint> for Uint` (`src/bits.rs`, after the C05 repair): `BITS == 0` shortcut; an amount with a
+    non-zero limb above the first moves every bit out; otherwise `wrapping_shl(rhs.limbs[0] as usize)`.
+    The by-reference and assign shapes forward to this one. -/
+def shlUint (bits a : Nat) (rhs : List Nat) : Nat :=
+  if bits = 0 then a else if rhs.tail.any (· != 0) then 0 else wshl bits a (rhs.headD 0)
+
+/-- `Shr<Uint> for Uint`. -/
+def shrUint (bits a : Nat) (rhs : List Nat) : Nat :=
+  if bits = 0 then a else if rhs.tail.any (· != 0) then 0 else wshr bits a (rhs.headD 0)
+
 /-! ## num-integer -/
 
 /-- `Integer::is_multiple_of`: `if other.is_zero() { return self.is_zero() }; self % other == ZERO`. -/
